@@ -225,6 +225,7 @@ def check(ctx):
         closure(ctx, P, cname)
     overrides(ctx, P)
     selection(ctx, P)
+    progress_bar_numbers(ctx, P)
     ctx.assume("distributions return floats/ints; schedule boundaries are floats/ints")
     ctx.assume("the wrap-up horizon passed to wrap_up_servers may be a float or a Decimal")
 
@@ -373,6 +374,29 @@ def overrides(ctx, P):
         ctx.violation(ob, "R12.override", "ExactNode.create_starting_servers", str(sa), "servers-differ", "the exact override must build the same (node, id) servers over range(self.c) as Node.create_starting_servers", loc(a) if a else "")
     elif sa[3].replace('"', "'") not in ("Decimal('0.0')", "Decimal('0')"):
         ctx.violation(ob, "R11.decimal-of-float", "ExactNode.create_starting_servers", sa[3], "start-date-not-decimal", "exact servers must start at Decimal('0.0')", loc(a))
+
+
+def progress_bar_numbers(ctx, P):
+    """in exact mode dates are Decimal; tqdm keeps a float counter and divides by a float elapsed time, so a Decimal handed to progress_bar.update() ends in
+    TypeError.  Anything computed from a date (next_event_date, current_time) must be converted with float() before it reaches the bar."""
+    ob = ctx.ob("PBAR", "progress_bar.update(x): x is float(...)-converted or computed without reading a date")
+    sim = P.view("Simulation")
+    n = 0
+    for m in sim.methods():
+        cls, fn = sim.resolve(m)
+        fn2 = rules.inline_locals(fn, fn)
+        for x in ast.walk(fn2):
+            if isinstance(x, ast.Call) and isinstance(x.func, ast.Attribute) and x.func.attr == "update" and unparse(x.func.value).endswith("progress_bar") and x.args:
+                n += 1
+                a = x.args[0]
+                dated = [y for y in ast.walk(a) if isinstance(y, ast.Attribute) and y.attr in ("next_event_date", "current_time", "now")]
+                conv = isinstance(a, ast.Call) and isinstance(a.func, ast.Name) and a.func.id in ("float", "int")
+                ob.ok("%s.%s:%s" % (cls.name, m, unparse(a)[:40]), "%s.%s: update(%s)" % (cls.name, m, unparse(a)[:80]))
+                if dated and not conv:
+                    ctx.violation(ob, "R11.decimal-float", "%s.%s" % (cls.name, m), "progress_bar.update(%s)" % unparse(x.args[0])[:80], "decimal-reaches-progress-bar",
+                                  "a value computed from a date is handed to the progress bar unconverted: in exact mode it is a Decimal and tqdm's float arithmetic raises TypeError",
+                                  loc(x))
+    ctx.floor("progress_bar.update calls", n, 2)
 
 
 def selection(ctx, P):
